@@ -46,6 +46,8 @@ def guarded(stage, fn, *a, **k):
     except KeyboardInterrupt:
         raise
     except BaseException as e:  # noqa
+        if type(e).__name__ == "CaseTimeout":
+            raise
         tb = sys.exc_info()[2]
         raise Crashed(stage, e, env.innermost_dassh_frame(tb), traceback.format_exc()[-3000:])
 
